@@ -43,6 +43,34 @@ impl Write for FailAfter {
     }
 }
 
+/// writer with a transient fault: exactly the k-th `write` call is refused, every other call is
+/// accepted in full (a non-blocking sink that was momentarily full, an interrupted call that the
+/// caller does not retry). Whatever arrives after the refused call is recorded too.
+pub struct FailCall {
+    pub got: Rc<RefCell<Vec<u8>>>,
+    pub k: usize,
+    pub calls: usize,
+    pub at_failure: Rc<RefCell<Option<usize>>>,
+}
+
+impl Write for FailCall {
+    fn write(&mut self, buf: &[u8]) -> io::Result<usize> {
+        if buf.is_empty() {
+            return Ok(0);
+        }
+        self.calls += 1;
+        if self.calls - 1 == self.k {
+            *self.at_failure.borrow_mut() = Some(self.got.borrow().len());
+            return Err(io::Error::new(io::ErrorKind::WouldBlock, "FailCall"));
+        }
+        self.got.borrow_mut().extend_from_slice(buf);
+        Ok(buf.len())
+    }
+    fn flush(&mut self) -> io::Result<()> {
+        Ok(())
+    }
+}
+
 #[derive(Serialize)]
 struct Holder<'a> {
     s: &'a str,
@@ -312,6 +340,25 @@ fn check_dyn(ctx: &mut Ctx, x: &Dyn, failing: bool) {
                     let r = if pretty_mode { sonic_rs::to_writer_pretty(&mut bw, x) } else { sonic_rs::to_writer(&mut bw, x) };
                     drop(bw);
                     fail_verdict(ctx, "BufferedWriter", r, &rec.borrow(), correct, n);
+                }
+            }
+            // a transient fault: the k-th write call alone is refused. The error is returned and
+            // nothing more is written behind the gap (what the sink holds stays a prefix)
+            for k in 0..40 {
+                ctx.ops(1);
+                let rec = Rc::new(RefCell::new(Vec::new()));
+                let at = Rc::new(RefCell::new(None));
+                let fc = FailCall { got: rec.clone(), k, calls: 0, at_failure: at.clone() };
+                let mut bw = BufferedWriter::new(fc);
+                let r = if pretty_mode { sonic_rs::to_writer_pretty(&mut bw, x) } else { sonic_rs::to_writer(&mut bw, x) };
+                drop(bw);
+                let failed_at = *at.borrow();
+                let Some(pos) = failed_at else { break };
+                let got = rec.borrow();
+                if r.is_ok() {
+                    ctx.fail("writer-error-swallowed:transient", format!("write call #{} was refused, to_writer returned Ok", k));
+                } else if got.len() != pos || !correct.starts_with(&got) {
+                    ctx.fail("written-after-failure:transient", format!("write call #{} was refused after {} bytes; the sink then received more: it holds {:?}, the correct output begins {:?}", k, pos, crate::core::truncate(&String::from_utf8_lossy(&got), 120), crate::core::truncate(&String::from_utf8_lossy(correct), 120)));
                 }
             }
             // io::BufWriter over a failing WriteExt: errors may surface at flush
